@@ -1,6 +1,130 @@
-//! C05: not implemented yet.
-use crate::util::Args;
-pub fn main(_a: &Args) {
-    eprintln!("c05: not implemented");
-    std::process::exit(2);
+//! C05 (temporary content): self-test driver of the shared font I/O groundwork
+//! (`fontio.rs`, `fontio_gen.rs`, `lib/ufoio.py`, `lib/fontio_selftest.py`).
+//! The owner of property C05 replaces this file.
+//!
+//!   harness c05 --out DIR --seed N [--count K] [--size 0|1|2] [--gen class,class|all]
+//!       for k in 0..K: DIR/case_k/font.json (abstract input), built.json (dump of the built
+//!       value), n.ufo (Font::save_with_options, options drawn per case -> options.json),
+//!       loaded.json (dump of Font::load); *_error.txt where a step failed.
+//!   harness c05 --load DIR
+//!       for every DIR/case_*/w.ufo: loaded.json = dump of Font::load (or load_error.txt).
+//!   harness c05 --dump UFO --to FILE
+//!       dump of Font::load(UFO) (or {"__load_error__": ...}).
+use crate::util::{catch, write_file, Args, Rng};
+use norad::{Font, QuoteChar, WriteOptions};
+use serde_json::{json, Value as J};
+use std::path::{Path, PathBuf};
+
+#[path = "fontio.rs"]
+pub mod fontio;
+#[path = "fontio_gen.rs"]
+pub mod fontio_gen;
+
+fn opt<'a>(a: &'a Args, name: &str) -> Option<&'a str> {
+    a.extra.iter().position(|x| x == name).and_then(|i| a.extra.get(i + 1)).map(|s| s.as_str())
+}
+
+fn pretty(j: &J) -> String {
+    serde_json::to_string_pretty(j).unwrap()
+}
+
+fn load_dump(ufo: &Path) -> Result<J, String> {
+    match catch(|| Font::load(ufo)) {
+        Err(p) => Err(format!("PANIC {}", p)),
+        Ok(Err(e)) => Err(format!("{:?}", e)),
+        Ok(Ok(f)) => catch(|| fontio::dump_font(&f)).map_err(|p| format!("PANIC in dump {}", p)),
+    }
+}
+
+pub fn main(a: &Args) {
+    if let Some(ufo) = opt(a, "--dump") {
+        let to = opt(a, "--to").expect("--to FILE");
+        let j = match load_dump(Path::new(ufo)) {
+            Ok(j) => j,
+            Err(e) => json!({"__load_error__": e}),
+        };
+        write_file(Path::new(to), &pretty(&j));
+        return;
+    }
+    if let Some(dir) = opt(a, "--load") {
+        let mut cases: Vec<PathBuf> = std::fs::read_dir(dir)
+            .expect("cannot list --load directory")
+            .filter_map(|e| e.ok().map(|e| e.path()))
+            .filter(|p| p.join("w.ufo").is_dir())
+            .collect();
+        cases.sort();
+        for c in cases {
+            let _ = std::fs::remove_file(c.join("loaded.json"));
+            let _ = std::fs::remove_file(c.join("load_error.txt"));
+            match load_dump(&c.join("w.ufo")) {
+                Ok(j) => write_file(&c.join("loaded.json"), &pretty(&j)),
+                Err(e) => write_file(&c.join("load_error.txt"), &e),
+            }
+        }
+        return;
+    }
+
+    let count: u64 = opt(a, "--count").and_then(|s| s.parse().ok()).unwrap_or(if a.thorough() { 2000 } else { 200 });
+    let fixed_size: Option<u32> = opt(a, "--size").and_then(|s| s.parse().ok());
+    let classes: Vec<String> = opt(a, "--gen").map(|s| s.split(',').map(|x| x.to_string()).collect()).unwrap_or_default();
+    let gopts = fontio_gen::GenOpts::from_names(&classes);
+    std::fs::create_dir_all(&a.out).unwrap();
+    let mut master = Rng::new(a.seed);
+    let mut summary = Vec::new();
+    for k in 0..count {
+        let mut rng = master.fork();
+        let dir = a.out.join(format!("case_{}", k));
+        std::fs::create_dir_all(&dir).unwrap();
+        let size = fixed_size.unwrap_or_else(|| rng.below(3) as u32);
+        let font_json = fontio_gen::gen_font_with(&mut rng, size, &gopts);
+        write_file(&dir.join("font.json"), &pretty(&font_json));
+        let (ic, iw, q) = (rng.below(2), rng.below(9), rng.below(2));
+        let mut status = "ok";
+        let built = match catch(|| fontio::build_font(&font_json)) {
+            Err(p) => Err(format!("PANIC {}", p)),
+            Ok(r) => r,
+        };
+        match built {
+            Err(e) => {
+                write_file(&dir.join("build_error.txt"), &e);
+                status = "build_error";
+            }
+            Ok(font) => {
+                write_file(&dir.join("built.json"), &pretty(&fontio::dump_font(&font)));
+                let mut wo = WriteOptions::default();
+                // the default (one tab) in a third of the cases, otherwise char x width 0..8
+                let default_opts = rng.below(3) == 0;
+                if !default_opts {
+                    wo = wo.indent(if ic == 0 { WriteOptions::TAB } else { WriteOptions::SPACE }, iw as usize);
+                    if q == 1 {
+                        wo = wo.quote_char(QuoteChar::Single);
+                    }
+                }
+                write_file(
+                    &dir.join("options.json"),
+                    &pretty(&json!({"default": default_opts, "indent_char": if ic == 0 { "tab" } else { "space" }, "indent_width": iw, "single_quote": q == 1})),
+                );
+                let ufo = dir.join("n.ufo");
+                match catch(|| font.save_with_options(&ufo, &wo)) {
+                    Err(p) => {
+                        write_file(&dir.join("save_error.txt"), &format!("PANIC {}", p));
+                        status = "save_error";
+                    }
+                    Ok(Err(e)) => {
+                        write_file(&dir.join("save_error.txt"), &format!("{:?}", e));
+                        status = "save_error";
+                    }
+                    Ok(Ok(())) => match load_dump(&ufo) {
+                        Ok(j) => write_file(&dir.join("loaded.json"), &pretty(&j)),
+                        Err(e) => {
+                            write_file(&dir.join("load_error.txt"), &e);
+                            status = "load_error";
+                        }
+                    },
+                }
+            }
+        }
+        summary.push(json!({"case": k, "size": size, "status": status}));
+    }
+    write_file(&a.out.join("summary.json"), &pretty(&json!({"seed": a.seed, "count": count, "classes": classes, "cases": summary})));
 }
